@@ -157,6 +157,18 @@ func run(w *core.Worker, c Case) {
 			if !utf8.ValidString(s) {
 				return
 			}
+			// ReverseStr reverses runes (valid UTF-8 only) and undoes itself
+			{
+				rs := []rune(s)
+				for i, j := 0, len(rs)-1; i < j; i, j = i+1, j-1 {
+					rs[i], rs[j] = rs[j], rs[i]
+				}
+				if got := gogu.ReverseStr(s); got != string(rs) {
+					fail("ReverseStr", "ReverseStr(%q)=%q want %q", s, got, string(rs))
+				} else if back := gogu.ReverseStr(got); back != s {
+					fail("ReverseStr-involution", "ReverseStr(ReverseStr(%q))=%q", s, back)
+				}
+			}
 			lo, up := strings.Map(unicode.ToLower, s), strings.Map(unicode.ToUpper, s)
 			if got := gogu.ToLower(s); got != lo {
 				fail("ToLower", "ToLower(%q)=%q want %q", s, got, lo)
@@ -245,7 +257,7 @@ func allStrings(alpha []string, maxLen int) []string {
 func TestProp(t *testing.T) {
 	r := core.Start(t, "C15")
 	defer r.Finish()
-	r.Rule("cases = one call (group) of a string helper against a byte-level reference: Substr (PHP-style rule, out of range = empty; offsets and lengths up to the int limits), SplitAtIndex (exactly two parts that concatenate to the input), PadLeft/PadRight/Pad (length, position, padding = prefix of the repeated token, fields up to 70 KB), Wrap + Unwrap round trip, Unwrap on arbitrary strings (unchanged unless wrapped), WrapAllRune, ToLower/ToUpper/Capitalize vs unicode per rune, CamelCase/SnakeCase/KebabCase clauses on words of ASCII letters/digits joined by runs of ' -_&'; non-trivial = input of >= 2 bytes (resp. padding needed / really wrapped / >= 2 words); distinct by hash of the case")
+	r.Rule("cases = one call (group) of a string helper against a byte-level reference: Substr (PHP-style rule, out of range = empty; offsets and lengths up to the int limits), SplitAtIndex (exactly two parts that concatenate to the input), PadLeft/PadRight/Pad (length, position, padding = prefix of the repeated token, fields up to 70 KB), Wrap + Unwrap round trip, Unwrap on arbitrary strings (unchanged unless wrapped), WrapAllRune, ToLower/ToUpper/Capitalize vs unicode per rune, ReverseStr (rune reversal, involution), CamelCase/SnakeCase/KebabCase clauses on words of ASCII letters/digits joined by runs of ' -_&'; non-trivial = input of >= 2 bytes (resp. padding needed / really wrapped / >= 2 words); distinct by hash of the case")
 
 	alpha := []string{"a", "B", "é", "'", "*", " "}
 	toks := []string{"'", "*", "''", "'*", "é", "a", "aB"}
